@@ -116,6 +116,15 @@ def sort_sequences(ctx):
             rs = rng.randrange(3)
             sysi = {0: 4, 1: 3, 2: 6}[rs]
             strs = rng.sample(shared, rng.randrange(3, 9)) + [versions.gen(rng, sysi) for _ in range(rng.randrange(0, 4))]
+            if rng.random() < 0.35:
+                # long lists (Go's sort is an insertion sort up to 12 elements and pdqsort above: an inconsistent
+                # `less` misorders only there), drawn around a few shared cores with related spellings
+                cs = versions.cores(rng, sysi)
+                for _ in range(rng.randrange(10, 55)):
+                    a = versions.with_core(rng, sysi, cs)
+                    strs.append(a)
+                    if rng.random() < 0.3:
+                        strs += versions.variants(rng, sysi, a)[:2]
             if rs == 1:
                 strs = [s for s in strs if versions.in_dmvn(s)]
             rng.shuffle(strs)
